@@ -16,6 +16,7 @@ Fragment (anything else raises TranslateError => "tie broken"):
     extracted by pattern from expressions (Generated/Constants).
 """
 import ast
+import re
 import hashlib
 import os
 import sys
@@ -251,9 +252,106 @@ class FnTranslator:
         return ''.join(l + '\n' for l in self.loops) + head, eff
 
 
+_LOGGER_NAME = re.compile(r'(^|_)(log|logger)$', re.I)
+_LOG_METHODS = {'debug', 'info', 'warning', 'warn', 'error', 'exception', 'critical', 'log'}
+_PURE_CALLS = {'len', 'repr', 'str', 'type', 'id', 'int', 'float', 'bool', 'tuple', 'list', 'sorted', 'min', 'max',
+               'sum', 'abs', 'round', 'format'}
+
+
+def _pure(e):
+    """an expression whose evaluation cannot change any state the translated code can see"""
+    if isinstance(e, (ast.Constant, ast.Name)):
+        return True
+    if isinstance(e, ast.Attribute):
+        return _pure(e.value)
+    if isinstance(e, ast.Subscript):
+        return _pure(e.value) and _pure(e.slice)
+    if isinstance(e, (ast.Tuple, ast.List)):
+        return all(_pure(x) for x in e.elts)
+    if isinstance(e, ast.JoinedStr):
+        return all(_pure(v.value) if isinstance(v, ast.FormattedValue) else True for v in e.values)
+    if isinstance(e, ast.BinOp):
+        return _pure(e.left) and _pure(e.right)
+    if isinstance(e, ast.UnaryOp):
+        return _pure(e.operand)
+    if isinstance(e, ast.Compare):
+        return _pure(e.left) and all(_pure(c) for c in e.comparators)
+    if isinstance(e, ast.Call):
+        f = e.func
+        ok = (isinstance(f, ast.Name) and f.id in _PURE_CALLS) or \
+             (isinstance(f, ast.Attribute) and f.attr in ('format', 'join') and _pure(f.value))
+        return ok and all(_pure(a) for a in e.args) and all(_pure(k.value) for k in e.keywords)
+    return False
+
+
+def _is_logger(e):
+    if isinstance(e, ast.Name):
+        return bool(_LOGGER_NAME.search(e.id)) or e.id == 'logging'
+    if isinstance(e, ast.Attribute):
+        return bool(_LOGGER_NAME.search(e.attr))
+    return False
+
+
+def _is_log_call(st):
+    return (isinstance(st, ast.Expr) and isinstance(st.value, ast.Call) and isinstance(st.value.func, ast.Attribute)
+            and st.value.func.attr in _LOG_METHODS and _is_logger(st.value.func.value)
+            and all(_pure(a) for a in st.value.args) and all(_pure(k.value) for k in st.value.keywords))
+
+
+class _StripObservers(ast.NodeTransformer):
+    """Removes what only OBSERVES the computation: logging calls with pure arguments (also an
+    `if logger.isEnabledFor(..):` block that contains nothing else) and the annotation of annotated
+    assignments (`x: T = e` -> `x = e`; a bare `x: T` is dropped).  Asserts are NOT touched: an assert can
+    raise, and several modelled rejections are asserts."""
+
+    def _body(self, body):
+        out = []
+        for st in body:
+            st = self.visit(st)
+            if st is None:
+                continue
+            if _is_log_call(st):
+                continue
+            if isinstance(st, ast.If) and not st.orelse and isinstance(st.test, ast.Call) and \
+                    isinstance(st.test.func, ast.Attribute) and st.test.func.attr == 'isEnabledFor' and \
+                    _is_logger(st.test.func.value) and all(isinstance(x, ast.Pass) for x in st.body):
+                continue
+            out.append(st)
+        return out or [ast.Pass()]
+
+    def generic_visit(self, node):
+        node = super().generic_visit(node)
+        for field in ('body', 'orelse', 'finalbody'):
+            b = getattr(node, field, None)
+            if isinstance(b, list) and b and all(isinstance(x, ast.stmt) for x in b):
+                nb = self._body_novisit(b)
+                setattr(node, field, nb if (nb or field == 'body') else [])
+        return node
+
+    def _body_novisit(self, body):
+        out = []
+        for st in body:
+            if _is_log_call(st):
+                continue
+            if isinstance(st, ast.If) and not st.orelse and isinstance(st.test, ast.Call) and \
+                    isinstance(st.test.func, ast.Attribute) and st.test.func.attr == 'isEnabledFor' and \
+                    _is_logger(st.test.func.value) and all(isinstance(x, ast.Pass) for x in st.body):
+                continue
+            out.append(st)
+        return out or [ast.Pass()]
+
+    def visit_AnnAssign(self, node):
+        if node.value is None:
+            return None
+        return ast.copy_location(ast.Assign(targets=[node.target], value=node.value), node)
+
+
 def parse_file(path):
     with open(path) as f:
-        return ast.parse(f.read())
+        tree = ast.parse(f.read())
+    tree = _StripObservers().visit(tree)
+    ast.fix_missing_locations(tree)
+    return tree
 
 
 # numba.vectorize lifts a scalar function elementwise over arrays (its fixed-width integer arithmetic is
